@@ -9,8 +9,8 @@ package server
 //   c  eBGP AS 65003 WITHOUT the 4-octet AS capability (2-octet session),
 // MRT "updates" dumping switched on before any route, then — per case — a subset of the sources
 // {a path-id 1, a path-id 2, b, c, local (API)} announces one shared IPv4 prefix and another subset one
-// shared IPv6 prefix (every subset of each: 32 x 32 cases in the thorough tier, a pairwise cover in the
-// quick tier), plus one control prefix from b; finally MRT "table" dumping is switched on and virtual time
+// shared IPv6 prefix (every subset of each: 32 x 32 cases,
+// both tiers), plus one control prefix from b; finally MRT "table" dumping is switched on and virtual time
 // moves past the dump interval. Both files are split with mrt.SplitMrt and parsed with mrt.ParseHeader /
 // ParseBody (the C19 part mrt decides those parsers):
 //   updates: the BGP4MP records are, in order, exactly the UPDATEs the bots sent (payload bytes), each with
@@ -477,7 +477,7 @@ func TestVerif_C19_Daemon(t *testing.T) {
 		c19dJudge(r, c, c19dRun(t, c))
 		return
 	}
-	cases := c19dCases(vr.Thorough())
+	cases := c19dCases(true) // all 32 x 32 subsets in both tiers (under a minute)
 	r.Bounds["cases"] = len(cases)
 	for _, c := range cases {
 		r.Eval()
